@@ -278,6 +278,7 @@ var vC07Shapes = []string{
 	"costly-repeat", "costly-foreign", "nonce-variant", "nonce-rechain",
 	"token-variant", "token-missing-slot", "token-rekey",
 	"below-F", "weird-f",
+	"token-unsupported", "nonce-nodest", "costly-nodest",
 	"token-extra-slot", "unknown-chain",
 }
 
@@ -365,7 +366,7 @@ func TestVerif_C07(t *testing.T) {
 								td[x].Data = nil
 							}
 						}
-						for _, o := range g.pickOracles(g.count(g.thr(c)), 0) {
+						for _, o := range g.pickOracles(g.count(g.thr(c)), c) {
 							vC07AddTok(g.ob(o), c, s, append([]exectypes.TokenData{}, td...))
 						}
 					}
@@ -374,7 +375,7 @@ func TestVerif_C07(t *testing.T) {
 			if withRest {
 				for s := 0; s < cr.Range(1, 3); s++ {
 					sender := fmt.Sprintf("0x%02xaa", s)
-					for _, o := range g.pickOracles(g.count(g.thr(vC07Dest)), 0) {
+					for _, o := range g.pickOracles(g.count(g.thr(vC07Dest)), vC07Dest) {
 						vC07AddNonce(g.ob(o), c, sender, uint64(cr.Range(1, 3)+s))
 					}
 				}
@@ -383,7 +384,7 @@ func TestVerif_C07(t *testing.T) {
 		if withRest {
 			for _, m := range allMsgs {
 				if cr.Chance(1, 3) {
-					for _, o := range g.pickOracles(g.count(g.thr(vC07Dest)), 0) {
+					for _, o := range g.pickOracles(g.count(g.thr(vC07Dest)), vC07Dest) {
 						g.ob(o).CostlyMessages = append(g.ob(o).CostlyMessages, vC07B32(uint64(m.c)*1000+uint64(m.seq)))
 					}
 				}
@@ -416,9 +417,12 @@ func TestVerif_C07(t *testing.T) {
 		for _, o := range byz {
 			ob := g.ob(o)
 			switch shape {
-			case "repeat-commit":
+			case "repeat-commit": // adjacent or with other reports in between
 				if l := ob.CommitReports[c0]; len(l) > 0 {
 					for k := 1; k < copies; k++ {
+						if cr.Bool() {
+							ob.CommitReports[c0] = append(ob.CommitReports[c0], vC07Commit(c0, 900+cciptypes.SeqNum(10*k), 901+cciptypes.SeqNum(10*k), 990+uint64(k), nil))
+						}
 						ob.CommitReports[c0] = append(ob.CommitReports[c0], l[0])
 					}
 				} else {
@@ -463,24 +467,72 @@ func TestVerif_C07(t *testing.T) {
 			case "unsupported-msgs":
 				g.sup[o][c0] = false
 				vC07AddMsg(ob, c0, seq0, vC07Msg(c0, seq0, 0))
-			case "costly-repeat": // F13c
+			case "costly-repeat": // F13c: one id repeated, adjacent ([A,A]) or with other ids in between ([A,B,A], [A,B,B,A], [A,B,C,A,..])
+				g.sup[o][vC07Dest] = true
+				idA := vC07B32(uint64(c0)*1000 + uint64(seq0))
+				others := []cciptypes.Bytes32{vC07B32(515151), vC07B32(525252), vC07B32(535353)}
+				for _, m := range allMsgs {
+					if id := vC07B32(uint64(m.c)*1000 + uint64(m.seq)); id != idA && len(others) < 6 {
+						others = append(others, id)
+					}
+				}
+				style := cr.Intn(4)
 				for k := 0; k < g.thr(vC07Dest)+cr.Intn(2); k++ {
-					ob.CostlyMessages = append(ob.CostlyMessages, vC07B32(uint64(c0)*1000+uint64(seq0)))
+					ob.CostlyMessages = append(ob.CostlyMessages, idA)
+					switch style {
+					case 1: // A,B,A,B,..
+						ob.CostlyMessages = append(ob.CostlyMessages, others[0])
+					case 2: // A,B,B,A,C,C,..
+						x := others[k%len(others)]
+						ob.CostlyMessages = append(ob.CostlyMessages, x, x)
+					case 3: // A,B,A,C,A,D: repeats spread over several ids
+						ob.CostlyMessages = append(ob.CostlyMessages, others[cr.Intn(len(others))])
+					}
 				}
 			case "costly-foreign":
+				g.sup[o][vC07Dest] = true
 				ob.CostlyMessages = append(ob.CostlyMessages, vC07B32(424242))
 			case "nonce-variant":
+				g.sup[o][vC07Dest] = true
 				vC07AddNonce(ob, c0, "0x00aa", 77)
 			case "nonce-rechain":
+				g.sup[o][vC07Dest] = true
 				vC07AddNonce(ob, vC07Dest, "0x00aa", 1)
 				vC07AddNonce(ob, c0, "0x77bb", 1)
 			case "token-variant":
+				g.sup[o][c0] = true
 				vC07AddTok(ob, c0, seq0, []exectypes.TokenData{{Ready: true, Data: cciptypes.Bytes{0xEE}}})
 			case "token-missing-slot":
+				g.sup[o][c0] = true
 				vC07AddTok(ob, c0, seq0, nil)
 			case "token-rekey":
+				g.sup[o][c0] = true
 				vC07AddTok(ob, c0, seq0+1000, []exectypes.TokenData{{Ready: true, Data: cciptypes.Bytes{1}}})
+			case "token-unsupported": // token data of a chain the oracle does not read (F07): rejected; an empty inner map is allowed
+				g.sup[o][c0] = false
+				delete(ob.Messages, c0)
+				if cr.Chance(1, 4) {
+					if ob.TokenData == nil {
+						ob.TokenData = exectypes.TokenDataObservations{}
+					}
+					ob.TokenData[c0] = map[cciptypes.SeqNum]exectypes.MessageTokenData{}
+				} else {
+					vC07AddTok(ob, c0, seq0, []exectypes.TokenData{{Ready: true, Data: cciptypes.Bytes{0xEE}}})
+				}
+			case "nonce-nodest": // nonces from an oracle that does not read the destination (F07)
+				g.sup[o][vC07Dest] = false
+				ob.CostlyMessages = nil
+				if cr.Chance(1, 4) {
+					ob.Nonces = exectypes.NonceObservations{c0: map[string]uint64{}}
+				} else {
+					vC07AddNonce(ob, c0, "0x00aa", 1)
+				}
+			case "costly-nodest":
+				g.sup[o][vC07Dest] = false
+				ob.Nonces = nil
+				ob.CostlyMessages = append(ob.CostlyMessages, vC07B32(uint64(c0)*1000+uint64(seq0)))
 			case "token-extra-slot": // F13e
+				g.sup[o][c0] = true
 				var base []exectypes.TokenData
 				if m, ok := ob.TokenData[c0]; ok {
 					base = append(base, m[seq0].TokenData...)
